@@ -3,6 +3,7 @@
 //! See /verif/DESIGN.md. This binary is one worker: the orchestration (parallel workers, build,
 //! Miri, evidence) lives in /verif/check.
 mod astio;
+mod futex;
 mod gen;
 mod minimise;
 mod rng;
@@ -71,6 +72,9 @@ fn cfg_flags() -> Vec<String> {
     if cfg!(cel_verif_hash) {
         v.push("cel_verif_hash".into());
     }
+    if tls::fine_build() {
+        v.push("sancov_fine".into());
+    }
     v
 }
 
@@ -121,6 +125,10 @@ struct Agg {
     ops: u64,
     solo_steps: u64,
     conc_steps: u64,
+    solo_edges: u64,
+    conc_edges: u64,
+    fine_runs: u64,
+    edge_switches: u64,
     decisions: u64,
     switches: u64,
     switches_two_in_exec: u64,
@@ -144,13 +152,15 @@ struct Agg {
     runs_with_faults_enabled: u64,
     nontrivial: Vec<u64>,
     preempt_pairs: std::collections::BTreeSet<(u32, u32)>,
-    site_switches: [u64; 32],
+    site_switches: Vec<u64>,
     threads_hist: BTreeMap<usize, u64>,
     max_execs_in_run: u64,
     max_history_len: u64,
     policies: BTreeMap<String, u64>,
     stalls: u64,
     foreign_block_runs: u64,
+    futex_waits: u64,
+    futex_wakes: u64,
     digests: Vec<(u64, u64)>,
 }
 
@@ -203,6 +213,12 @@ fn cmd_batch(args: &[String]) {
         agg.ops += st.ops;
         agg.solo_steps += st.solo_steps;
         agg.conc_steps += st.conc_steps;
+        agg.solo_edges += st.solo_edges;
+        agg.conc_edges += st.conc_edges;
+        if engine == Engine::B && tls::fine_build() && w.sched.fine_gap > 0 {
+            agg.fine_runs += 1;
+        }
+        agg.edge_switches += st.sched.site_switches.get(SITE_EDGE as usize).copied().unwrap_or(0);
         agg.decisions += st.sched.decisions;
         agg.switches += st.sched.switches;
         agg.switches_two_in_exec += st.sched.switches_while_two_in_exec;
@@ -240,8 +256,13 @@ fn cmd_batch(args: &[String]) {
             if st.sched.foreign_block {
                 agg.foreign_block_runs += 1;
             }
+            agg.futex_waits += st.sched.futex_waits;
+            agg.futex_wakes += st.sched.futex_wakes;
             for p in &st.sched.preempt_pairs {
                 agg.preempt_pairs.insert(*p);
+            }
+            if agg.site_switches.len() < st.sched.site_switches.len() {
+                agg.site_switches.resize(st.sched.site_switches.len(), 0);
             }
             for (i, c) in st.sched.site_switches.iter().enumerate() {
                 agg.site_switches[i] += c;
@@ -280,6 +301,12 @@ fn cmd_batch(args: &[String]) {
         "ops": agg.ops,
         "solo_steps": agg.solo_steps,
         "concurrent_steps": agg.conc_steps,
+        "solo_edges": agg.solo_edges,
+        "concurrent_edges": agg.conc_edges,
+        "fine_grained_runs": agg.fine_runs,
+        "context_switches_at_instrumented_edges": agg.edge_switches,
+        "fine_build": tls::fine_build(),
+        "instrumented_edge_guards": tls::N_GUARDS.load(std::sync::atomic::Ordering::Relaxed),
         "decisions": agg.decisions,
         "context_switches": agg.switches,
         "switches_while_two_threads_inside_an_execution": agg.switches_two_in_exec,
@@ -301,13 +328,15 @@ fn cmd_batch(args: &[String]) {
         "runs_fault_injecting": agg.runs_with_faults_enabled,
         "nontrivial_digests": agg.nontrivial.iter().map(|d| format!("{:016x}", d)).collect::<Vec<_>>(),
         "preempt_site_pairs": agg.preempt_pairs.iter().map(|p| vec![p.0, p.1]).collect::<Vec<_>>(),
-        "site_switches": agg.site_switches.to_vec(),
+        "site_switches": agg.site_switches.clone(),
         "threads_histogram": agg.threads_hist.iter().map(|(k, v)| (k.to_string(), *v)).collect::<BTreeMap<String, u64>>(),
         "max_executions_in_one_run": agg.max_execs_in_run,
         "max_history_len": agg.max_history_len,
         "policies": agg.policies,
         "stall_overlays": agg.stalls,
         "inconclusive_foreign_block_runs": agg.foreign_block_runs,
+        "simulated_futex_waits": agg.futex_waits,
+        "simulated_futex_wakes": agg.futex_wakes,
         "run_digests": agg.digests.iter().map(|(i, d)| (i.to_string(), format!("{:016x}", d))).collect::<BTreeMap<String, String>>(),
         "sample": sample,
         "violation": violation,
@@ -488,6 +517,7 @@ fn cmd_triage(args: &[String]) {
     }
     if mode == "dump" {
         let path = arg(args, "--write").unwrap_or_else(|| die("--write <file>"));
+        let deadlock = arg(args, "--kind") == Some("deadlock");
         let rf = ReplayFile {
             property: "C05".into(),
             format: 1,
@@ -497,13 +527,21 @@ fn cmd_triage(args: &[String]) {
             workload: w.clone(),
             schedule: vec![],
             violation: ViolationInfo {
-                invariant: "process-crash".into(),
-                phase: "unknown".into(),
+                invariant: if deadlock { "I6-deadlock".into() } else { "process-crash".into() },
+                phase: if deadlock { "concurrent".into() } else { "unknown".into() },
                 thread: 0,
                 op_index: 0,
                 expected: "the run completes".into(),
-                got: "the worker process was killed by a signal while executing this workload".into(),
-                detail: "memory corruption or abort inside the code under test that needs history or sharing to occur (every program of this workload survives when executed once, alone, on a pristine context)".into(),
+                got: if deadlock {
+                    "every live simulated thread waits on a futex that nobody will wake (deadlock under this schedule)".into()
+                } else {
+                    "the worker process was killed by a signal while executing this workload".into()
+                },
+                detail: if deadlock {
+                    "executions sharing the root context block each other forever although each completes when run alone".into()
+                } else {
+                    "memory corruption or abort inside the code under test that needs history or sharing to occur (every program of this workload survives when executed once, alone, on a pristine context)".into()
+                },
             },
             minimised: false,
             deterministic_replay: false,
